@@ -198,3 +198,96 @@ Section WF.
       split; [constructor; auto; split; left; reflexivity|reflexivity].
   Qed.
 End WF.
+
+(* ---- tables, arrays of tables, documents ------------------------------------------------------------------------- *)
+Section WFItems.
+  Variable PS : scalar -> Prop.
+  Variable PK : bytes -> Prop.
+  Local Notation cval_ok := (cval_ok PS PK).
+  Local Notation citem_ok := (citem_ok PS PK).
+  Local Notation BI := (BuiltItem PS PK).
+  Local Notation BE := (BuiltEntries PS PK).
+
+  Definition centries_ok (l : list (bytes * citem)) : Prop := Forall PK (map fst l) /\ Forall citem_ok (map snd l).
+
+  Lemma citem_ok_strong (P : citem -> Prop) :
+    (forall v, cval_ok v -> P (CValue v)) ->
+    (forall l, Forall PK (map fst l) -> Forall P (map snd l) -> P (CTable l)) ->
+    (forall ts, Forall (fun l => Forall PK (map fst l) /\ Forall P (map snd l)) ts -> P (CAot ts)) ->
+    forall c, citem_ok c -> P c.
+  Proof.
+    intros H1 H2 H3. fix IH 2. intros c Hc. destruct Hc as [v Hv | l Hk Hl | ts Hts].
+    - apply H1, Hv.
+    - apply H2; [exact Hk|]. induction Hl; constructor; [apply IH; assumption|assumption].
+    - apply H3. induction Hts as [|l ts [Hk Hl] _ IHts]; constructor; [|exact IHts].
+      split; [exact Hk|]. induction Hl; constructor; [apply IH; assumption|assumption].
+  Qed.
+
+  Definition mk_tbl (l : list (bytes * item)) (pos : option N) : tbl :=
+    Tbl (mk_tbl_items l) decor_default false false pos None.
+
+  Lemma tbl_of_built kvl : Forall PK (map fst kvl) -> Forall BI (map snd kvl) -> forall l pos,
+    BE l -> exists l', tbl_of (mk_tbl l pos) kvl = mk_tbl l' pos /\ BE l'.
+  Proof.
+    induction kvl as [|[k it] kvl IH]; intros Hk Hv l pos Hl; [exists l; auto|].
+    cbn [map fst snd] in Hk, Hv. inversion Hk; subst. inversion Hv; subst.
+    unfold tbl_of. cbn [fold_left fst snd]. unfold tbl_insert, mk_tbl. cbn [t_items t_set_items].
+    rewrite kv_insert_tbl. apply IH; auto.
+    destruct Hl as [l Hnd Hkl Hil]. constructor; auto using l_insert_nodup, l_insert_forall, l_insert_keys_forall.
+  Qed.
+
+  Lemma BE_nil : BE [].
+  Proof. constructor; constructor. Qed.
+
+  Theorem eval_item_built : forall c, citem_ok c -> BI (eval_item c).
+  Proof.
+    apply citem_ok_strong.
+    - intros v Hv. cbn [eval_item]. constructor. apply (eval_value_built PS PK v Hv).
+    - intros l Hk IH. cbn [eval_item].
+      set (kvl := map (fun kv => (fst kv, eval_item (snd kv))) l).
+      assert (Hk' : Forall PK (map fst kvl)) by (unfold kvl; rewrite map_map; exact Hk).
+      assert (Hv' : Forall BI (map snd kvl)).
+      { unfold kvl. rewrite map_map. apply Forall_forall. intros it Hit. apply in_map_iff in Hit as (kv & <- & Hkv).
+        rewrite Forall_forall in IH. apply (IH (snd kv)). apply in_map, Hkv. }
+      destruct (tbl_of_built kvl Hk' Hv' [] None BE_nil) as (l' & E & Hl').
+      change tbl_new with (mk_tbl [] None). rewrite E. constructor. exact Hl'.
+    - intros ts IH. cbn [eval_item].
+      assert (G : forall tbls, Forall (fun t => exists l', t = mk_tbl l' None /\ BE l') tbls -> forall ls0, Forall BE ls0 ->
+                exists ls', fold_left aot_push tbls (IAot (map (fun l => mk_tbl l None) ls0) None)
+                            = IAot (map (fun l => mk_tbl l None) ls') None /\ Forall BE ls').
+      { induction 1 as [|t tbls (l' & -> & Hl') _ IHt]; intros ls0 Hls0; [exists ls0; auto|].
+        cbn [fold_left aot_push].
+        replace (map (fun l => mk_tbl l None) ls0 ++ [mk_tbl l' None]) with (map (fun l => mk_tbl l None) (ls0 ++ [l']))
+          by (rewrite map_app; reflexivity).
+        apply IHt. apply Forall_app. split; [exact Hls0|constructor; [exact Hl'|constructor]]. }
+      destruct (G (map (fun l => tbl_of tbl_new (map (fun kv => (fst kv, eval_item (snd kv))) l)) ts)) with (ls0 := @nil (list (bytes * item)))
+        as (ls' & E & Hls').
+      + apply Forall_forall. intros t Ht. apply in_map_iff in Ht as (l & <- & Hl).
+        rewrite Forall_forall in IH. destruct (IH l Hl) as [Hk Hi].
+        set (kvl := map (fun kv => (fst kv, eval_item (snd kv))) l).
+        assert (Hk' : Forall PK (map fst kvl)) by (unfold kvl; rewrite map_map; exact Hk).
+        assert (Hv' : Forall BI (map snd kvl)).
+        { unfold kvl. rewrite map_map. apply Forall_forall. intros it Hit. apply in_map_iff in Hit as (kv & <- & Hkv).
+          rewrite Forall_forall in Hi. apply (Hi (snd kv)). apply in_map, Hkv. }
+        change tbl_new with (mk_tbl [] None). apply (tbl_of_built kvl Hk' Hv' [] None BE_nil).
+      + constructor.
+      + unfold aot_new. change (@nil tbl) with (map (fun l : list (bytes * item) => mk_tbl l None) []). rewrite E.
+        constructor. exact Hls'.
+  Qed.
+
+  (* C06_built_WF, documents *)
+  Theorem eval_doc_built from_table l : centries_ok l -> BuiltTbl PS PK (eval_doc from_table l).
+  Proof.
+    intros [Hk Hl]. unfold eval_doc.
+    set (kvl := map (fun kv => (fst kv, eval_item (snd kv))) l).
+    assert (Hk' : Forall PK (map fst kvl)) by (unfold kvl; rewrite map_map; exact Hk).
+    assert (Hv' : Forall BI (map snd kvl)).
+    { unfold kvl. rewrite map_map. apply Forall_forall. intros it Hit. apply in_map_iff in Hit as (kv & <- & Hkv).
+      rewrite Forall_forall in Hl. apply eval_item_built, (Hl (snd kv)). apply in_map, Hkv. }
+    destruct from_table.
+    - destruct (tbl_of_built kvl Hk' Hv' [] None BE_nil) as (l' & E & Hl').
+      change tbl_new with (mk_tbl [] None). rewrite E. exists l', None. auto.
+    - destruct (tbl_of_built kvl Hk' Hv' [] (Some 0%N) BE_nil) as (l' & E & Hl').
+      change doc_root_new with (mk_tbl [] (Some 0%N)). rewrite E. exists l', (Some 0%N). auto.
+  Qed.
+End WFItems.
